@@ -6,12 +6,13 @@ COMPONENTS = ["s_outlier"]
 T4 = []
 PROOF_MODULES = ["GrpcProofs.Properties.C40"]
 THEOREMS = ["GrpcProofs.C40." + t for t in (
-    "eject_only_if_volume_and_criterion", "only_the_interval_timer_ejects", "sr_criterion_is_mean_minus_stdev",
-    "no_eject_at_or_above_max_percent_partial", "no_eject_at_or_above_max_percent_counterexample",
+    "run_reach", "eject_only_if_volume_and_criterion", "fp_criterion_exact_where_float_agrees",
+    "sr_criterion_is_mean_minus_stdev", "only_the_interval_timer_ejects",
+    "no_eject_at_or_above_max_percent_partial", "timer_loops_are_InFire", "no_eject_at_or_above_max_percent_counterexample",
     "true_count_le_counter", "counter_equals_true_count_partial",
     "counter_equals_true_count_counterexample_removed", "counter_equals_true_count_counterexample_reejected",
-    "uneject_after_rule", "uneject_only_in_timer_or_noop", "ejected_looks_TF_to_child_partial",
-    "ejected_looks_TF_to_child_counterexample", "scw_ejected_iff_endpoint_ejected", "noop_config_unejects_all")]
+    "uneject_rule_step", "uneject_after_rule", "uneject_only_in_timer_or_noop",
+    "ejected_looks_TF_to_child_partial", "ejected_looks_TF_to_child_counterexample", "noop_config_unejects_all")]
 DESIGN_REF = "DESIGN.md section 8, C40"
 TECHNIQUE = ("Lean 4 theorems over an executable model of the balancer (exact rational success-rate criterion, bit-exact binary64 for the "
              "two percentage comparisons, map order and random draws as explicit arguments) + T2 correspondence: the real balancer under "
